@@ -19,6 +19,8 @@ answers must coincide is a theorem about the models:
 * dual form = primal form (`GstProofs.C01.dual`);
 * block kriging with one discretisation point = point kriging: the block average of any function
   over a one-point discretisation is the function at that point (`blockAverage_single`);
+* the algebraic calculator (`KrigingCalcul`): the universal-kriging weights obtained from the
+  simple-kriging ones through the Schur complement `XᵀΣ⁻¹X` solve the bordered system (`uk_from_sk`);
 * the ball-tree query is specified as the `k` first sorted candidates (`GstProofs.C06.knn_spec`).
 
 The optimised covariance matrices and the ball tree itself are tied by correspondence only.
@@ -105,6 +107,41 @@ theorem loo_estimate (b z : Fin n → K) (i : Fin n) (hbi : b i ≠ 0) :
   ring
 
 end LeaveOneOut
+
+/-! ### the algebraic calculator: universal kriging from simple kriging (Schur complement)
+
+`KrigingCalcul` never assembles the bordered system: it computes the simple-kriging weights
+`λ₀ = Σ⁻¹Σ₀`, the matrix `S = XᵀΣ⁻¹X` and corrects.  The corrected weights are the solution of the
+documented block system, for every size. -/
+section Schur
+open Matrix
+variable {K : Type*} [Field K] {m p : Type*} [Fintype m] [Fintype p] [DecidableEq m] [DecidableEq p]
+
+/-- with `λ₀ = Σ⁻¹Σ₀`, `S = XᵀΣ⁻¹X`, `μ = S⁻¹(Xᵀλ₀ − X₀)` and `λ = λ₀ − Σ⁻¹Xμ`, the pair `(λ, μ)`
+satisfies both kriging equations `Σλ + Xμ = Σ₀` and `Xᵀλ = X₀` -/
+theorem uk_from_sk (Sg : Matrix m m K) (X : Matrix m p K) (S0 : m → K) (X0 : p → K)
+    (hS : IsUnit Sg.det) (hQ : IsUnit (Xᵀ * Sg⁻¹ * X).det) :
+    let lam0 := Sg⁻¹ *ᵥ S0
+    let mu := (Xᵀ * Sg⁻¹ * X)⁻¹ *ᵥ (Xᵀ *ᵥ lam0 - X0)
+    let lam := lam0 - Sg⁻¹ *ᵥ (X *ᵥ mu)
+    Sg *ᵥ lam + X *ᵥ mu = S0 ∧ Xᵀ *ᵥ lam = X0 := by
+  intro lam0 mu lam
+  have cancelS : ∀ v : m → K, Sg *ᵥ (Sg⁻¹ *ᵥ v) = v := fun v => by
+    rw [Matrix.mulVec_mulVec, Matrix.mul_nonsing_inv _ hS, Matrix.one_mulVec]
+  have hq : (Xᵀ * Sg⁻¹ * X) *ᵥ mu = Xᵀ *ᵥ lam0 - X0 := by
+    show (Xᵀ * Sg⁻¹ * X) *ᵥ ((Xᵀ * Sg⁻¹ * X)⁻¹ *ᵥ (Xᵀ *ᵥ lam0 - X0)) = _
+    rw [Matrix.mulVec_mulVec, Matrix.mul_nonsing_inv _ hQ, Matrix.one_mulVec]
+  constructor
+  · show Sg *ᵥ (lam0 - Sg⁻¹ *ᵥ (X *ᵥ mu)) + X *ᵥ mu = S0
+    rw [Matrix.mulVec_sub, cancelS, cancelS]
+    abel
+  · show Xᵀ *ᵥ (lam0 - Sg⁻¹ *ᵥ (X *ᵥ mu)) = X0
+    have e : Xᵀ *ᵥ (Sg⁻¹ *ᵥ (X *ᵥ mu)) = (Xᵀ * Sg⁻¹ * X) *ᵥ mu := by
+      rw [Matrix.mulVec_mulVec, Matrix.mulVec_mulVec]
+    rw [Matrix.mulVec_sub, e, hq]
+    abel
+
+end Schur
 
 /-- average of a function over a discretisation (list of points) -/
 def blockAverage {P : Type} (f : P → Q) (disc : List P) : Q :=
